@@ -19,7 +19,7 @@ LEVEL_NOTE = ("In-process stack + the DBOS SQLite lifecycle lock as a component 
               "through the real DBOS runtime cannot run here (dbos package absent). A multi-lock-object thread stress on one SQLite file is reported as information only.")
 DESIGN_REF = "§5 C26"
 RULE = "case = (program, idle_timeout, send/restart schedule, yield seed) or (lifecycle script); distinct = hash of the scenario; non-trivial = >=1 release and >=1 send at/after it"
-REQUIRED_REACH = ["scenario", "release_snapshot_eval", "send_at_release_instant", "concurrent_senders", "restart_scenario", "conservation_eval", "slow_store", "lifecycle_script", "lifecycle_stalled_releaser",
+REQUIRED_REACH = ["scenario", "release_snapshot_eval", "send_at_release_instant", "concurrent_senders", "restart_scenario", "conservation_eval", "slow_store", "stack_inproc", "stack_dbos_sub", "lifecycle_script", "lifecycle_stalled_releaser",
                   "lifecycle_released_period", "lifecycle_crash_timeout_takeover"]
 ASSUMPTIONS = ["an event whose send_event call raised is not counted as sent (the caller was told)"]
 
@@ -39,14 +39,28 @@ def gen_case(seed):
     return {"seed": seed, "spec": spec, "keys": keys, "I": rnd.choice([0.5, 1, 2]), "offsets": [rnd.choice([-0.2, -0.05, -0.001, 0, 0, 0.001, 0.25]) for _ in keys],
             "store_latency": rnd.choice([None, None, 0.02, 0.1, 0.3]),
             "concurrent": rnd.random() < 0.5, "dup": rnd.random() < 0.3, "yield_seed": rnd.choice([None, seed]), "restart": rnd.random() < 0.35,
-            "restart_off": rnd.choice([-0.25, 0.0, 0.001, 0.3]), "store": "sqlite"}
+            "restart_off": rnd.choice([-0.25, 0.0, 0.001, 0.3]), "store": "sqlite", "stack": rnd.choice(["inproc", "inproc", "dbos_sub"])}
 
 
 def run_inproc(case, acc):
     from vf import idle_cases as ic
 
     wit = {"case": case}
-    t_idle = ic.idle_instant(case["spec"], case.get("store_latency"))
+    stack = case.get("stack", "inproc")
+    if stack != "inproc":
+        case = {**case, "restart": False}  # a DBOS process restart is recovered by the DBOS engine itself: not emulated by the substitute
+    _acc, _v = acc, acc.violation
+
+    class _A:
+        def __getattr__(self, n):
+            return getattr(_acc, n)
+
+        def violation(self, sig, what, w):
+            _v({**sig, "stack": stack} if stack != "inproc" else sig, (f"[{stack} stack] " if stack != "inproc" else "") + what, w)
+
+    acc = _A()
+    acc.hit("stack_" + stack)
+    t_idle = ic.idle_instant(case["spec"], case.get("store_latency"), stack)
     if t_idle is None:
         acc.inconclusive.append(f"reference run never became idle seed={case['seed']}")
         return
@@ -65,7 +79,7 @@ def run_inproc(case, acc):
         restarts = [max(0.1, sends[-1]["at"] + case["restart_off"])] if case["restart_off"] < 0 else [max(0.1, sends[0]["at"] - case["restart_off"])]
         # after a restart every not yet delivered answer is (re)sent shortly after start()
     scn = {"spec": case["spec"], "idle_timeout": I, "sends": sends, "restarts": restarts, "yield_seed": case["yield_seed"], "store": "sqlite", "end": 300.0,
-           "store_latency": case.get("store_latency")}
+           "store_latency": case.get("store_latency"), "stack": stack}
     if case.get("store_latency"):
         acc.hit("slow_store")
     obs, cs = ic.run_scenario(scn)
